@@ -519,6 +519,7 @@ pub fn vh_phy(a: &Args) {
     // fault / cancel at every bus position of the last call, after every prefix of length depth-1
     let prefixes: Vec<Vec<Step>> = if fdepth <= 1 { vec![vec![]] } else { seqs.iter().filter(|s| s.len() == fdepth - 1).cloned().collect() };
     let recover = if lw { "lw_setup_single" } else { "prep_tx" };
+    let (recover2, done_after) = if lw { ("lw_rx_single", done_rx) } else { ("tx", done_tx) };
     for p in &prefixes {
         for x in &alpha {
             // how many bus events does the fault-free call produce?
@@ -534,8 +535,10 @@ pub fn vh_phy(a: &Args) {
                 let mut f = x.clone();
                 f.fault = k as i32;
                 t.push(f);
-                // after the faulty call, one follow-up call shows whether the driver recovered
+                // after the faulty call, a follow-up prepare + start shows whether driver and chip still agree
+                // (an operation must not start on a chip that lost its configuration in the failed call)
                 t.push(Step { call: recover.into(), irq: vec![], fault: -1, cancel: false });
+                t.push(Step { call: recover2.into(), irq: vec![done_after], fault: -1, cancel: false });
                 run_history(out.shard(h), chip, &t);
                 h += 1;
                 nhist += 1;
@@ -554,6 +557,22 @@ pub fn vh_phy(a: &Args) {
     }
     }
     println!("events={} histories={nhist}", out.finish());
+}
+
+/// `vh phymc in=FILE`: call sequences generated by TLC from MCPhy.tla (one JSON object {"chip", "steps"} per line),
+/// executed on the real drivers.
+pub fn vh_phymc(a: &Args) {
+    let text = std::fs::read_to_string(a.get("in").expect("in=FILE")).unwrap();
+    let mut out = Shards::create(&a.out, "phy", a.shards);
+    let mut h = 0usize;
+    for line in text.lines().filter(|l| !l.trim().is_empty()) {
+        let v: Value = serde_json::from_str(line).unwrap();
+        let steps: Vec<Step> = serde_json::from_value(v["steps"].clone()).unwrap();
+        let chip = v["chip"].as_str().unwrap_or("sx1262").to_string();
+        run_history(out.shard(h), &chip, &steps);
+        h += 1;
+    }
+    println!("events={} histories={h}", out.finish());
 }
 
 /// `vh phyreplay in=FILE`: re-drive a recorded history ({"steps":[...]}).
